@@ -46,6 +46,10 @@ NOTES = {
  "C20b": "round 2; caught by the order-taint rule as first written (hash iteration reaching allocate_object_id)",
  "C25b": "round 2; first missed; rule C25 R7 (u8 ranges that fill encoding tables end inclusively at 0xFF) added",
  "C28b": "round 2; first missed; rule C28 R5 (/Count is computed from a recursive descendant count on both branches) added",
+ "C19b": "round 2; first missed; rule C19 R6 (reconstructed entries take their generation from the scanned header) added",
+ "C26b": "round 2; first missed; rule C26 R8 (no narrowing cast of a char in the CMap builder; UTF-16 by encode_utf16) added",
+ "C27b": "round 2; first missed; rule C27 R6 (add_range inserts on every path) added",
+ "C29b": "round 2; caught by C29 R2 as first written (ObjectCache::get holds the write lock for the whole operation)",
  "C22b": "round 2; first missed; rule C22 R6 (shared atomic counters are updated by one read-modify-write, never load-then-store) added",
  "C11b": "round 2; first missed; rule C11 R7 (fonts are installed under their resource name unconditionally) added",
 }
